@@ -148,11 +148,24 @@ class Stats:
         self.unsupported[why] = self.unsupported.get(why, 0) + 1
 
 
+CROSSCHECK_BUDGET = {"n": int(os.environ.get("VERIF_CROSSCHECK", "0"))}
+
+
 def solve(constraints, timeout_ms, stats):
     t0 = time.time()
     v, look = S.solve_z3py(constraints, timeout_ms)
     stats.queries += 1
     stats.solver_s += time.time() - t0
+    if CROSSCHECK_BUDGET["n"] > 0 and v in ("sat", "unsat"):
+        # second opinion from cvc5 on the very same script (diff of two solvers; thorough tier)
+        CROSSCHECK_BUDGET["n"] -= 1
+        v2, out2 = S.solve_external(constraints, 30, "cvc5")
+        stats.crosschecked = getattr(stats, "crosschecked", 0) + 1
+        if v2 in ("sat", "unsat") and v2 != v:
+            stats.solver_disagreements = getattr(stats, "solver_disagreements", [])
+            stats.solver_disagreements.append({"z3": v, "cvc5": v2})
+        elif v2 not in ("sat", "unsat"):
+            stats.crosscheck_unknown = getattr(stats, "crosscheck_unknown", 0) + 1
     if v == "sat":
         stats.sat += 1
     elif v == "unsat":
